@@ -8,13 +8,16 @@ package main
 
 import (
 	"bufio"
+	"bytes"
 	"context"
 	"encoding/json"
 	"errors"
 	"fmt"
+	"io"
 	"os"
 	"os/exec"
 	"path/filepath"
+	"reflect"
 	"strconv"
 	"strings"
 	"sync"
@@ -235,6 +238,167 @@ func genWriter(rng *Rng) *writerCase {
 	return c
 }
 
+// ---------- copy cases: io.Copy from a chunked reader into the real
+// LimitedWriter over a real bytes.Buffer (the wiring of execCommander.Output) ----------
+
+type chunkReader struct {
+	chunks []int64
+	next   int
+	pos    int64
+	bad    bool
+}
+
+func streamByte(i int64) byte { return byte('A' + i%53) }
+
+func (r *chunkReader) Read(p []byte) (int, error) {
+	if r.next >= len(r.chunks) {
+		return 0, io.EOF
+	}
+	n := r.chunks[r.next]
+	if n > int64(len(p)) { // io.Copy's buffer is 32 KiB; the generators stay below
+		r.bad = true
+		n = int64(len(p))
+	}
+	for i := int64(0); i < n; i++ {
+		p[i] = streamByte(r.pos + i)
+	}
+	r.pos += n
+	r.next++
+	return int(n), nil
+}
+
+type copyCase struct {
+	Limit  int64   `json:"limit"`
+	Chunks []int64 `json:"chunks"`
+	Obs    string  `json:"obs"`
+}
+
+func runCopy(c *copyCase) (in, obs string) {
+	var buf bytes.Buffer
+	lw := verifbridge.LimitWriter(&buf, c.Limit)
+	src := &chunkReader{chunks: c.Chunks}
+	written, err := io.Copy(lw, src)
+	ec := "CUnder"
+	switch {
+	case err == nil:
+		ec = "CNil"
+	case errors.Is(err, io.ErrShortWrite):
+		ec = "CShort"
+	case errors.Is(err, verifbridge.ErrLimitExceeded):
+		ec = "CLimit"
+	}
+	left := int64(-1) << 40
+	if v := reflect.ValueOf(lw); v.Kind() == reflect.Ptr && v.Elem().Kind() == reflect.Struct {
+		if f := v.Elem().FieldByName("N"); f.IsValid() && f.CanInt() {
+			left = f.Int()
+		}
+	}
+	buffered := int64(buf.Len())
+	for i, b := range buf.Bytes() { // what is held must be the beginning of what was printed
+		if b != streamByte(int64(i)) {
+			buffered = -1
+			break
+		}
+	}
+	if src.bad {
+		buffered = -2
+	}
+	items := make([]string, len(c.Chunks))
+	for i, n := range c.Chunks {
+		items[i] = zs(n)
+	}
+	c.Obs = fmt.Sprintf("written=%d err=%s left=%d reads=%d buffered=%d", written, ec, left, src.next, buffered)
+	return CApp("ICopy", CApp("mk_cinput", zs(c.Limit), CList(items))),
+		CApp("OCopy", CApp("mk_cres", zs(written), ec, zs(left), CN(int64(src.next))), zs(buffered))
+}
+
+// sysCopies: totals below / exactly at / above the limit, the chunk that
+// crosses the limit at every position, an exact fit followed by more output.
+func sysCopies() []*copyCase {
+	var out []*copyCase
+	for _, L := range []int64{-3, 0, 1, 2, 10, 4096, 32768, 70000} {
+		for n := 0; n <= 4; n++ {
+			for pos := 0; pos <= n; pos++ { // the limit is used up by the first pos chunks (pos = n: never)
+				for kind := 0; kind < 3; kind++ { // 0 exact fit, 1 the crossing chunk overshoots, 2 one byte short of the limit
+					if L <= 0 && (pos > 0 || kind > 0) {
+						continue
+					}
+					c := &copyCase{Limit: L}
+					rem := L
+					for j := 0; j < n; j++ {
+						var l int64
+						switch {
+						case j < pos-1:
+							l = rem / int64(pos-j+1)
+						case j == pos-1:
+							l = rem
+							if kind == 1 {
+								l = rem + 5
+							}
+							if kind == 2 {
+								l = rem - 1
+							}
+						default:
+							l = int64(1 + 3*(j-pos))
+						}
+						if l > 32768 {
+							l = 32768
+						}
+						if l <= 0 {
+							l = 1
+						}
+						c.Chunks = append(c.Chunks, l)
+						rem -= l
+						if rem < 0 {
+							rem = 0
+						}
+					}
+					out = append(out, c)
+				}
+			}
+		}
+	}
+	return out
+}
+
+func genCopy(rng *Rng) *copyCase {
+	c := &copyCase{}
+	switch rng.Intn(8) {
+	case 0:
+		c.Limit = int64(rng.Intn(3)) - 2
+	case 1:
+		c.Limit = 60000 + int64(rng.Intn(20000))
+	default:
+		c.Limit = int64(rng.Intn(120))
+	}
+	n := rng.Intn(7)
+	rem := c.Limit
+	for j := 0; j < n; j++ {
+		var l int64
+		switch rng.Intn(6) {
+		case 0:
+			l = rem
+		case 1:
+			l = rem + 1
+		case 2:
+			l = rem / 2
+		default:
+			l = int64(1 + rng.Intn(40))
+		}
+		if l > 32768 {
+			l = 32768
+		}
+		if l <= 0 {
+			l = 1
+		}
+		c.Chunks = append(c.Chunks, l)
+		if rem -= l; rem < 0 {
+			rem = 0
+		}
+	}
+	return c
+}
+
 func ctxKind(c *procCase) string {
 	switch {
 	case c.DeadlineMs < 0:
@@ -439,6 +603,8 @@ func runC17(a *Args) error {
 		"stdout {valid reply, each mandatory metadata field removed / empty / null, wrong names, wrong and good contract version lists, duplicate keys, non-JSON, empty, wrong JSON types, larger than the cap, exactly the cap} x " +
 		"exit code {0, non-zero} x stderr {empty, structured error with every code, partial structured errors, incomplete, non-JSON, huge, structured error beyond / within / exactly at the cap} x " +
 		"timing {immediate, sleeping past a deadline or a cancellation, descendant holding the pipes long / briefly, both} x file {executable, not executable, missing, directory}; " +
+		"file name different from the name given to NewCLIPlugin (plugin reporting either); calls whose process is never started (file without x bit, context already done) while the plugin would have printed a reply / a structured error / text; structured errors with metadata maps (nil, empty, one, several unsorted and duplicate keys) compared entry by entry; " +
+		"copy cases: the real io.Copy from a reader that delivers scripted chunks into the real LimitedWriter over a real bytes.Buffer (the wiring of execCommander.Output): total below / at / above the limit, the crossing chunk at every position, exact fit followed by more output; observed: bytes written, error (nil / short write / limit), remaining budget, chunks consumed, bytes held and that they are the beginning of the stream; " +
 		"concurrency family: K goroutines in ONE re-executed host process, each making many calls of the real CLIPlugin methods (five commands, one plugin called by everybody and three others, a shared CLIPlugin per plugin or a fresh one) against plugin processes that derive reply, stderr and exit code from the specification carried in the request; reply sizes tiny / 64 KiB / 300-900 KiB / > 1 MiB, a quarter of the processes failing with their own structured error (or none), a context logger that yields between the end of the process and the decoding for 70 % of the calls; every call judged against its own process (response deeply equal to the decoding of the printed bytes; own error code, message and metadata), a sample emitted as ordinary cases, anomalies as implementation violations; " +
 		"writer cases: random limits (<=0, small, 64 MiB) and write sequences against a scripted underlying writer (full, short, failing). " +
 		"non-trivial = the stub ran and (exit code != 0 or stderr non-empty or stdout is not the plain valid reply or timing/cap involved), resp. a write sequence that reaches the limit; distinct = distinct behaviour tuples"
@@ -533,6 +699,34 @@ func runC17(a *Args) error {
 		w.Add(my, term, c, fmt.Sprint(c.Limit, c.Writes), sum >= c.Limit)
 		w.Count("family", "writer")
 		w.Count("writer_limit", map[bool]string{true: "<=0", false: ">0"}[c.Limit <= 0])
+	}
+
+	// ---- copy cases ----
+	nC := 600
+	if a.Tier == "thorough" {
+		nC = 20000
+	}
+	sysC := sysCopies()
+	for k := 0; k < nC+len(sysC); k++ {
+		var c *copyCase
+		if k < len(sysC) {
+			c = sysC[k]
+		} else {
+			c = genCopy(rng)
+		}
+		my := id
+		id++
+		if !w.Want(my) {
+			continue
+		}
+		in, obs := runCopy(c)
+		var sum int64
+		for _, x := range c.Chunks {
+			sum += x
+		}
+		w.Add(my, CApp("mk_case", CN(my), in, obs), c, fmt.Sprint("copy", c.Limit, c.Chunks), sum >= c.Limit && len(c.Chunks) > 0)
+		w.Count("family", "copy")
+		w.Count("copy_total_vs_limit", map[bool]string{true: "over", false: "within"}[sum > c.Limit && sum > 0])
 	}
 
 	// ---- concurrency family (re-executed child process) ----
